@@ -836,6 +836,9 @@ func main() {
 	if c.Replay == "" || muxReplay != nil {
 		muxPart(c, m, muxReplay)
 	}
+	if c.Replay == "" {
+		dupPart(c)
+	}
 	raceRun(c)
 	c.Assume("channels and mutexes behave as the Go language specification says; the scheduler and the memory model are not modelled (the race detector is not part of this run)")
 	c.Assume("every subscriber keeps receiving until it has unsubscribed (receiver fairness); each channel value is subscribed at most once")
